@@ -32,6 +32,7 @@ type checker struct {
 	worlds   map[string]*world
 	deadline time.Time
 	capped   sync.Once
+	done     atomic.Bool
 	classes  sync.Map // string -> struct{}
 	counts   sync.Map // scenario -> *atomic.Int64
 	info     sync.Map // informational counters -> *atomic.Int64
@@ -51,13 +52,21 @@ func dump(m *sync.Map) map[string]int64 {
 	return out
 }
 
+// expired is sticky: once the deadline has passed every caller stops.
 func (k *checker) expired() bool {
+	if k.done.Load() {
+		return true
+	}
 	if time.Now().After(k.deadline) {
+		k.done.Store(true)
 		k.capped.Do(func() { k.run.Cap("internal deadline reached before the enumeration was complete") })
 		return true
 	}
 	return false
 }
+
+// stop is the cheap per-item form: reads the sticky flag always, the clock every 32nd item.
+func (k *checker) stop(i int) bool { return k.done.Load() || (i%32 == 0 && k.expired()) }
 
 func errClass(err error) string {
 	if err == nil {
@@ -126,7 +135,7 @@ func (k *checker) evaluate(c Case) outcome {
 
 func (k *checker) parallel(n int, f func(i int)) {
 	ev.ParallelFor(n, func(i int) {
-		if i%32 == 0 && k.expired() {
+		if k.stop(i) {
 			return
 		}
 		f(i)
@@ -175,7 +184,10 @@ func TestCheck(t *testing.T) {
 	run.Rule = "a case is (entry mode call/static/create, program bytes, call data, gas, epoch); classes = distinct (scenario, mode, epoch, how the top frame ended, deepest frame reached (capped at 3), which of CALL/CALLCODE/DELEGATECALL/STATICCALL/CREATE/SELFDESTRUCT/SSTORE/LOG2 executed, memory growth class, whether a callee frame failed) over cases that executed at least one instruction"
 	run.Assume("gas budgets are at most the block gas limit 4712388 (2^62 only for the fixed recursion programs), which bounds memory and running time")
 	run.Assume("world state is observed as (state root of a deep copy after IntermediateRoot(EIP-158 clearing iff active at the height), digest of the log list, refund counter; the refund an SSTORE/SELFDESTRUCT books in its own gas function before the tracer sees the step is subtracted); state.StateDB.Copy and trie hashing are trusted as observers (their own properties are C09/C10)")
-	run.Assume("around call sites inside a program the before/after observation is made for the first 48 call-type instructions of an execution; the top-level frame is always observed")
+	if run.Thorough() {
+		nestedObsPerCase = 48
+	}
+	run.Assume(fmt.Sprintf("around call sites inside a program the before/after observation is made for the first %d call-type instructions of an execution; the top-level frame is always observed", nestedObsPerCase))
 	run.Assume("static-call immutability is asserted where Byzantium rules are active (test@0-4, mainnet >= 36050); on mainnet 22800..36049 STATICCALL is a valid opcode without write protection - counted as information only, the property says 'under Byzantium rules'")
 	run.Assume("a call-type instruction must cost the frame at least G_call=700 (G_create=32000) net of returned gas; other instructions exactly their traced cost")
 	run.Assume("precompile allocation is bounded as TotalAlloc delta <= 8 MiB + 512 B per unit of gas supplied, measured single-threaded")
@@ -237,7 +249,10 @@ func TestCheck(t *testing.T) {
 		}
 		for _, ep := range use {
 			for _, mode := range modesFor(ep, false) {
-				for _, g := range opGases {
+				for gi, g := range opGases {
+					if run.Quick() && mode == ModeStatic && gi != len(opGases)-1 {
+						continue // quick tier: the static wrapper only with the ample budget
+					}
 					k.parallel(len(progs), func(i int) {
 						k.evaluate(Case{Scenario: "ops", Mode: mode, Code: progs[i], Input: calldata64, Gas: g, Ep: ep})
 					})
@@ -294,7 +309,7 @@ func TestCheck(t *testing.T) {
 				n := 0
 				enumSeq(alpha, j.length, j.first, func(code []byte) {
 					n++
-					if n%64 == 0 && k.expired() {
+					if k.stop(n) {
 						return
 					}
 					for _, mode := range modes {
@@ -305,8 +320,8 @@ func TestCheck(t *testing.T) {
 							continue // thorough tier: 4-symbol programs on the three main epochs (static mode where it is asserted)
 						}
 						for gi, g := range gases {
-							if run.Quick() && g < 1000 && j.length == seqDepth {
-								continue // quick tier: the starvation budget only for the shorter programs
+							if run.Quick() && j.length == seqDepth && (g < 1000 || (mode == ModeStatic && gi != len(gases)-1)) {
+								continue // quick tier, longest programs: no starvation budget; static wrapper only with the ample budget
 							}
 							if run.Thorough() && j.length == seqDepth && g != 1000000 {
 								continue // thorough tier: 4-symbol programs with one ample budget
